@@ -323,6 +323,15 @@ def c17_scenarios(rng, n):
                 inbound = [{"g": g, "after": a, "q": rng.choice((0, 1, 2)), "tag": 100 * g + a} for g in range(1, nre + 2) for a in (0, 1)]
                 out.append(rf.scenario("c17-%d" % i, wl, tm, faults, inbound=inbound))
                 i += 1
+    # a handler that replaces itself from inside its own callback (a one-shot bootstrap handler): the next messages, on
+    # this and on later connections, go to the new one
+    for nre in range(0, 3):
+        for p1 in ("pre", "conn"):
+            for q in (0, 1, 2):
+                faults = [{"p": "PUBLISH", "n": j + 1, "o": "cutAfter"} for j in range(nre)]
+                inbound = [{"g": 1, "after": 0, "q": q, "tag": 101}, {"g": 1, "after": 0, "q": q, "tag": 102}] + [{"g": g, "after": 0, "q": q, "tag": 100 * g + 1} for g in range(2, nre + 2)]
+                out.append(rf.scenario("c17s-%d" % i, [dict(HANDLE(1), swap=2), PUB(1)], [p1, "conn"], faults, inbound=inbound))
+                i += 1
     for j in range(n // 4):
         nh = rng.randint(1, 3)
         wl, tm = [], []
@@ -464,7 +473,7 @@ def confirm_liveness(fam, binary, results):
     keep = []
     tried = {}
     for kind, where, detail, replay in fam.verd.violations:
-        if kind not in ("C01_Progress", "C18_NoStall", "C02_ExchangeCompletes"):
+        if kind not in ("C01_Progress", "C18_NoStall", "C02_ExchangeCompletes", "C17_HandleReturns"):
             keep.append((kind, where, detail, replay))
             continue
         if tried.get(kind, 0) >= 3:
